@@ -38,7 +38,7 @@ theorem C10_min_token_value : Gen.aaveMinTokenValue < 1 / 10 ^ 18 ∧ 1 / 10 ^ 1
 /-- what `Asset.sub` leaves: the difference, or 0 when the difference is within the 1e-5 dust of the balance -/
 def WalletTook (w w' : Wallet) (tok : String) (amount : Rat) : Prop :=
   ∃ b b', AList.get? w tok = some b ∧ AList.get? w' tok = some b' ∧
-    (b' = b - amount ∨ (b' = 0 ∧ ratAbs ((b - amount) / (if b ≠ 0 then b else amount)) < assetDust)) ∧
+    ((b' = b - amount ∧ 0 ≤ b - amount) ∨ (b' = 0 ∧ ratAbs ((b - amount) / (if b ≠ 0 then b else amount)) < assetDust)) ∧
     ∀ k, k ≠ tok → AList.get? w' k = AList.get? w k
 
 theorem aave_debit_took {w w' : Wallet} {tok : String} {amount : Rat}
@@ -70,7 +70,7 @@ theorem aave_debit_took {w w' : Wallet} {tok : String} {amount : Rat}
         · simp only [hn, if_true] at ha; cases ha
         · simp only [hn, if_false] at ha
           cases ha
-          exact Or.inl rfl
+          exact Or.inl ⟨rfl, not_lt.mp hn⟩
 
 /-- `add_to_balance`: exactly `amount` more (a new wallet entry starts from 0) -/
 theorem aave_credit_gave (w : Wallet) (tok : String) (amount : Rat) :
@@ -128,18 +128,18 @@ theorem C10_supply_exact {s s' : St} {tok : String} {amount : Rat} {coll : Bool}
     exactly `amount`, nothing else changes. -/
 theorem C10_borrow_exact {s s' : St} {tok : String} {amount? : Option Rat}
     (h : borrow aaveExact env tok amount? s = (.ok (), s')) :
-    ∃ st e amount, env.statusOf tok = .ok st ∧ (∀ a, amount? = some a → amount = a) ∧
+    ∃ st e amount, env.statusOf tok = .ok st ∧ (∀ a, amount? = some a → amount = a) ∧ 0 < amount ∧
       AList.get? s'.borrows tok = some e ∧
       e.base * st.varIdx = ((AList.get? s.borrows tok).map (·.base)).getD 0 * st.varIdx + amount ∧
       (∀ k, k ≠ tok → AList.get? s'.borrows k = AList.get? s.borrows k) ∧ s'.supplies = s.supplies ∧
       AList.get? s'.wallet tok = some ((AList.get? s.wallet tok).getD 0 + amount) ∧
       (∀ k, k ≠ tok → AList.get? s'.wallet k = AList.get? s.wallet k) := by
-  obtain ⟨amount, st, _, _, ha, hst, hnz, hc⟩ := borrow_inv h
+  obtain ⟨amount, st, _, hpos, ha, hst, hnz, hc⟩ := borrow_inv h
   have h1 : s'.supplies = s.supplies := congrArg Core.supplies hc
   have h2 : s'.borrows = _ := congrArg Core.borrows hc
   have h3 : s'.wallet = _ := congrArg Core.wallet hc
   obtain ⟨w1, w2⟩ := aave_credit_gave s.wallet tok amount
-  refine ⟨st, _, amount, hst, ha, by rw [h2]; exact aget_set_self _ _ _, ?_,
+  refine ⟨st, _, amount, hst, ha, hpos, by rw [h2]; exact aget_set_self _ _ _, ?_,
           fun k hk => by rw [h2]; exact aget_set_ne _ (Ne.symm hk) _, h1, by rw [h3]; exact w1, fun k hk => by rw [h3]; exact w2 k hk⟩
   unfold borrowEntry
   cases AList.get? s.borrows tok with
